@@ -1,6 +1,7 @@
 import Lean.Data.Json
 import SpoxModel.Model.Opset
 import SpoxModel.Model.OpsetQualify
+import SpoxModel.Model.OpsetInits
 /-! Line-protocol handler for property C09 (model side of the correspondence).
 
 Requests (`t`):
@@ -11,6 +12,8 @@ Requests (`t`):
   with `G = {nodes:[N…]}`, `N = {k, d, o, v, np, c, subs:[G…], id, imports, hd}`.
 * `qualify` `{p, ins:[s…], outs:[s…], nodes:[{ins:[s…], outs:[s…]}…]}` → `{nodes:[{ins,outs}…], introduced:[s…], endsClean: bool, noSep:[bool…]}`
   (the renaming step of `adapt_node`, `Opset.Qualify.qualify`; `endsClean` = `endsCleanB p`, `noSep` = `noSepB` of every introduced name)
+* `inits`   `{inputs:[s…], inits:[s…], n}` → `{inputs, inits, nodes:[["c",name]|["o",k]…]}` (`_initializers_to_constants`
+  on a graph with `n` original nodes)
 -/
 namespace Drv.C09
 open Lean Opset
@@ -138,6 +141,16 @@ def handle (req : Json) : Json :=
           ("introduced", strsJson (Qualify.introduced (ins ++ outs) nodes).eraseDups),
           ("endsClean", toJson (Qualify.endsCleanB p)),
           ("noSep", Json.arr ((Qualify.introduced (ins ++ outs) nodes).eraseDups.map (fun n => toJson (Qualify.noSepB n))).toArray)]
+    | "inits" =>
+        let inputs ← parseStrs (← req.getObjVal? "inputs")
+        let inits ← parseStrs (← req.getObjVal? "inits")
+        let n ← req.getObjValAs? Nat "n"
+        let r := Inits.toConstants ⟨inputs, inits, (List.range n).map Inits.INode.orig⟩
+        return Json.mkObj [
+          ("inputs", strsJson r.inputs), ("inits", strsJson r.inits),
+          ("nodes", Json.arr (r.nodes.map (fun (nd : Inits.INode) => match nd with
+              | .const nm => Json.arr #[Json.str "c", Json.str (String.ofList nm)]
+              | .orig k => Json.arr #[Json.str "o", toJson k])).toArray)]
     | _ => throw s!"unknown request {t}") with
   | .ok j => j
   | .error e => Json.mkObj [("error", e)]
